@@ -19,6 +19,17 @@ Theorem C01_recv_frames : forall (m : nat) (rs : list wreply) (s : conn) (tail :
 Proof. exact recv_frames. Qed.
 Print Assumptions C01_recv_frames.
 
+(* ... and the same when commands are sent between the receive steps (a history of the control connection: any
+   interleaving [ops] of receive steps and sends with as many receive steps as there are replies): bytes that followed
+   a reply are kept for the next receive step whatever is sent in between *)
+Theorem C01_recv_frames_with_sends : forall (m : nat) (ops : list cop) (rs : list wreply) (s : conn) (tail : bytes),
+  forallb (wf_reply m) rs = true -> forallb not421 rs = true ->
+  buffer s ++ unread (tr s) = render rs ++ tail -> count_recv ops = length rs ->
+  exists s', run_ops ops (fixed_cfg m) s = (map (fun r => Ok (expected r)) rs, s') /\
+             buffer s' ++ unread (tr s') = tail.
+Proof. exact recv_frames_with_sends. Qed.
+Print Assumptions C01_recv_frames_with_sends.
+
 (* the result is identical for every way the stream is cut into network reads *)
 Theorem C01_schedule_irrelevant : forall m rs tail b1 u1 sc1 e1 b2 u2 sc2 e2,
   forallb (wf_reply m) rs = true -> forallb not421 rs = true ->
